@@ -787,6 +787,16 @@ theorem stepCore_inv2 {s t : CS} {e : Ev} (h : stepCore s e = some t) (hi : Inv2
   | writerClose c =>
     obtain ⟨-, rfl⟩ := guard_eq_some.1 h
     exact hi.of_eq rfl rfl rfl rfl rfl rfl rfl rfl (fun _ h => List.mem_cons_of_mem _ h)
+  | connCancel =>
+    -- the connect that held the lock is cancelled: nothing of an attempt is left; state, link and its history stay,
+    -- so `disc` / `main` carry over (a link it had opened and reported is still the current one)
+    obtain ⟨-, rfl⟩ := guard_eq_some.1 h
+    refine ⟨?_, ?_, ?_, ?_, hi.fresh, hi.freshConn, hi.disc, ?_, hi.main⟩
+    · intro _; exact ⟨rfl, rfl, rfl⟩
+    · intro c hc; cases hc
+    · intro hc; cases hc
+    · intro hc; cases hc
+    · intro hc; cases hc
   | _ =>
     simp only [stepCore, guard_eq_some] at h
     repeat' split at h
@@ -893,6 +903,10 @@ theorem stepCore_inv3 {s t : CS} {e : Ev} (h : stepCore s e = some t) (hi : Inv3
     split
     · next hc => exact ⟨hi.conn, hi.sends, hi.fault (hi.conn c hc)⟩
     · exact hi
+  | abandon c =>
+    obtain ⟨hg, rfl⟩ := guard_eq_some.1 h
+    simp only [Bool.and_eq_true, decide_eq_true_eq] at hg
+    exact ⟨hi.conn, hi.sends, hi.fault (hi.conn c hg.1.1.2)⟩
   | _ =>
     simp only [stepCore, guard_eq_some] at h
     repeat' split at h
